@@ -104,7 +104,7 @@ package runner
 //@   ensures [output_untouched] *o == old(*o)
 
 // C09 / C10: the files of one pattern are returned cleaned and in lexical order of the cleaned paths.
-//@ func (*StepReadConfig).findFiles
+//@ func (*StepReadConfig).findFiles pure
 //@   property C09 C10 C08
 //@   ensures [sorted_by_cleaned_path] forall a int, b int :: 0 <= a && a < b && b < len(result.0) ==> result.0[a] <= result.0[b]
 //@   ensures [paths_are_cleaned] forall k int :: 0 <= k && k < len(result.0) ==> filepath.Clean(result.0[k]) == result.0[k]
@@ -150,11 +150,33 @@ package runner
 
 // C12 / C09: reading the configuration never panics; files are folded into *i with input.Merge in the order
 // (pattern order, findFiles order). (The fold itself is not specified here; see DESIGN.md, C09.)
+// C09: the configuration is the left fold of input.Merge over the files that could be read and parsed, taken pattern by
+// pattern in the order of the -i flags and, within one pattern, in the order findFiles returns them (cleaned paths,
+// sorted). A file that cannot be read or parsed contributes nothing (and is reported). Reading a file and decoding
+// YAML are functions of the path / the bytes for the duration of one run (assumed, see os.spec and the model of
+// yaml.Unmarshal). mergeFiles / mergePatterns are definitional recursions.
+//@ spec fileOK(f string) bool = os.ReadFile(f).1 == nil && yamlErr(os.ReadFile(f).0, input.Input) == nil
+//@ spec fileInput(f string) input.Input = yamlValue(os.ReadFile(f).0, input.Input)
+//@ spec mergeOne(x input.Input, f string) input.Input = fileOK(f) ? input.Merge(x, fileInput(f)) : x
+//@ spec mergeFiles(x input.Input, fs []string, k int) input.Input
+//@ axiom [mergeFiles_0] forall x input.Input, fs []string :: mergeFiles(x, fs, 0) == x
+//@ axiom [mergeFiles_step] forall x input.Input, fs []string, k int :: 0 <= k && k < len(fs) ==> mergeFiles(x, fs, k + 1) == mergeOne(mergeFiles(x, fs, k), fs[k])
+//@ spec mergePatterns(x input.Input, s *StepReadConfig, k int) input.Input
+//@ axiom [mergePatterns_0] forall x input.Input, s *StepReadConfig :: mergePatterns(x, s, 0) == x
+//@ axiom [mergePatterns_step] forall x input.Input, s *StepReadConfig, k int :: s != nil && 0 <= k && k < len(s.patterns) ==>
+//@        mergePatterns(x, s, k + 1) == mergeFiles(mergePatterns(x, s, k), s.findFiles(s.patterns[k]).0, len(s.findFiles(s.patterns[k]).0))
+
 //@ func (*StepReadConfig).Run
-//@   property C12 C09
+//@   property C12 C09 C04
 //@   requires [wired] s.printer != nil && i != nil
 //@   modifies *i
+//@   ensures [no_patterns_nothing_merged] len(s.patterns) == 0 ==> *i == old(*i)
+//@   ensures [merged_in_flag_then_path_order] *i == mergePatterns(old(*i), s, len(s.patterns))
 //@   loop 1
 //@     invariant [processed_nonnil] processed != nil
+//@     invariant [folded_patterns] *i == mergePatterns(old(*i), s, $i)
 //@   loop 2
+//@     invariant [processed_nonnil] processed != nil
+//@     invariant [folded_files] *i == mergeFiles(mergePatterns(old(*i), s, $i1), files, $i)
+//@   loop 3
 //@     invariant [processed_nonnil] processed != nil
